@@ -52,6 +52,9 @@ pub fn pairs<'a>(ctx: &'a Ctx) -> Vec<Pair<'a>> {
         if i % ctx.shards != ctx.shard {
             continue;
         }
+        if ctx.only_fresh() && !is_fresh_id(&he.history.id) {
+            continue;
+        }
         let HistoryEntry { history, flavours } = he;
         for (flavour, ids) in flavours {
             for w in 0..ids.len() {
@@ -104,7 +107,7 @@ pub fn excluded(p: &Pair) -> bool {
 }
 
 pub fn c03(ctx: &mut Ctx, acc: &mut Acc) -> i32 {
-    let n = ctx.n(40, 400);
+    let n = ctx.n(100, 600);
     let ps = pairs(ctx);
     let mut histories = std::collections::HashSet::new();
     for p in &ps {
